@@ -53,7 +53,7 @@ def _gen_call(r, op, T, calm):
     if op == "solve_stress":
         meth = R.choice_w(r, [(None, 6), ("lsq_linear", 3), ("lsq", 1), ("fix_stress", 0 if calm else 1)])
         st = {"op": op, "when": when, "method": meth,
-              "b_matrix": R.choice_w(r, [(None, 4), ("velocity", 4), ("static", 1)]),
+              "b_matrix": R.choice_w(r, [(None, 8), ("velocity", 8), ("static", 2), ("acceleration", 1)]),
               "allow_negatives": r.choice([None, True, False]),
               "adimensional_velocity": r.choice([None, True, False]),
               "velocity_normalization": r.choice([None, None, 0.1, 2.0])}
